@@ -836,6 +836,8 @@ class Verifier:
                 v = Opaque(ctx.fresh(Val, f"{src.name}{src.pulls}_"))
                 if job.opts.get("ghost_tee") and "ghost" in self.impl_i.roots:
                     h = self.impl_i.roots["ghost"]["hist"]
+                    if job.opts.get("ghost_lemma"):
+                        job.opts["ghost_lemma"](self, ctx, h.to_seq(), z3.Unit(v.t))
                     h.seq = z3.Concat(h.to_seq(), z3.Unit(v.t))         # ghost: the sequence of fetched items
                 self.trace.append((f"pull {src.name}", f"item {v.t}"))
                 return ("item", v)
